@@ -1,5 +1,6 @@
 import AkVerif.Model.Murmur
 import AkVerif.Model.Assign
+import Driver.WireIO
 /-!
 Line-protocol driver: one operation per line on stdin, one canonical line per operation on stdout.
 The first token selects the model; unknown or malformed lines print `bad-op` (never a default).
@@ -11,6 +12,7 @@ def dispatch (toks : List String) : Option String :=
   match toks with
   | "c17" :: rest => Murmur.handle rest
   | "c14" :: rest => Assign.handle rest
+  | "c11" :: rest => WireIO.handle rest
   | _ => none
 
 partial def loop (h : IO.FS.Stream) (out : IO.FS.Stream) : IO Unit := do
